@@ -212,4 +212,4 @@ def replay_cell(args, model):
 
 for _s in SOLVERS:
     for _sh in range(3):
-        add_task('C13', f'matrix:{_s}', matrix_task, strength='B', tier='thorough', solver=_s, shard=(_sh, 3))
+        add_task('C13', f'matrix:{_s}', matrix_task, strength='B', solver=_s, shard=(_sh, 3))
